@@ -39,6 +39,9 @@ type Config struct {
 	Redundancy    int
 	Proxied       bool // followers reach leaders through cut-able proxies
 	QueryTimeout  time.Duration
+	// FollowerMaxMemory, if > 0, is the followers' MaxMemoryRatio (a tiny value makes follower-side
+	// scans fail with "out of memory" after 1000 rows)
+	FollowerMaxMemory float64
 }
 
 // Node is one server.
@@ -188,6 +191,7 @@ func (n *Node) Start() error {
 			s.FeedOverride = strings.Join(overrides, ",")
 		}
 		s.MaxReconnectWaitTime = 250 * time.Millisecond
+		s.MaxMemory = c.Cfg.FollowerMaxMemory
 	}
 	db, run, err := s.Prepare()
 	if err != nil {
